@@ -34,7 +34,7 @@ ASSUMPTIONS = [
 DECIDING = ['bp.app.bpsec:CoseContext.apply_bib', 'bp.app.bpsec:CoseContext.verify_bib', 'bp.app.bpsec:CoseContext.verify_bib_target',
             'bp.app.bpsec:CoseSecOpCtx.get_external_aad', 'bp.app.bpsec:CoseSecOpCtx.decode_msg', 'bp.app.bpsec:CoseContext._get_cose_key']
 REQUIRED_OBS = ['agent_bibs_confirmed', 'mutants_expect_reject', 'mutants_expect_accept', 'verify_fail_seen', 'verify_ok_seen',
-                'sign1_bundles', 'oracle_scope_bibs', 'wrong_key_runs', 'multi_target_bibs']
+                'sign1_bundles', 'oracle_scope_bibs', 'wrong_key_runs', 'multi_target_bibs', 'certificate_variant_runs']
 
 KINDS = ['mac0-256', 'mac0-384', 'mac0-512', 'sign1']  # 'sign1-x5t': upstream pycose 1.1.0 X5T.encode() is not CBOR-encodable, the source raises
 
@@ -86,7 +86,8 @@ def receive(data, kind, keys='all'):
 
 
 CRYPTO_FAILS = ('MAC tag mismatch', 'signature mismatch', 'no key for kid', 'certificate is not issued', 'certificate does not name',
-                'AES-GCM authentication failed', 'AES key unwrap failed', 'x5chain certificate does not parse', 'signature check failed')
+                'AES-GCM authentication failed', 'AES key unwrap failed', 'x5chain certificate does not parse', 'signature check failed',
+                'certificate is not valid', 'no certificate for the thumbprint')
 
 
 def covered_spans(data, sec_type=11):
@@ -360,13 +361,14 @@ def cases(tier, seed):
             out.append(dict(id='scope-%d-%s' % (sidx, targets), kind='scope', scope=[[k, v] for k, v in scope.items()], seed=seed * 127 + sidx,
                             addl=False, targets=targets))
     out.append(dict(id='keys', kind='keys', seed=seed))
+    out.append(dict(id='certs', kind='certs', seed=seed, reps=6 if thorough else 2))
     return out
 
 
 def run_case(case):
     from vf import sec_harness as sh
     obs = dict(agent_bibs_confirmed=0, mutants_expect_reject=0, mutants_expect_accept=0, verify_fail_seen=0, verify_ok_seen=0,
-               sign1_bundles=0, oracle_scope_bibs=0, wrong_key_runs=0, multi_target_bibs=0, mutants_no_security_block=0, accepted_but_not_delivered=0, mutants_structural_no_obligation=0)
+               sign1_bundles=0, oracle_scope_bibs=0, wrong_key_runs=0, multi_target_bibs=0, certificate_variant_runs=0, mutants_no_security_block=0, accepted_but_not_delivered=0, mutants_structural_no_obligation=0)
     rng = random.Random(case['seed'])
     violations = []
     classes = set()
@@ -440,6 +442,27 @@ def run_case(case):
                 covered, outside = covered_spans(data)
                 for mutant, label, pos in bit_flips(data, rng, 300):
                     note(judge(mutant, 'mac0-256', obs, label + ' (scope %s)' % scope, location=_locate(pos, covered, outside)), mutant, label)
+        elif kind == 'certs':
+            # COSE_Sign1 integrity blocks built by the oracle and signed under different certificates: only one issued by the trusted
+            # CA that names the security source is the right key
+            from cryptography.hazmat.primitives import serialization
+            variants = sh.pki()['variants']
+            for rep in range(case['reps']):
+                for vname in ('good', 'othernode', 'nosan', 'dnsonly', 'untrusted'):
+                    (cert, key) = variants[vname]
+                    bundle = base_bundle(rng, rng.choice([0, 20, 200]), next_=1, crc=rng.choice([0, 2]), seq=rep * 7 + 1)
+                    sec = dict(type=11, num=3, flags=0, crc_type=bundle['primary']['crc_type'], data=b'', crc=None)
+                    bundle['blocks'].insert(0, sec)
+                    tgt = bpv7.payload_of(bundle)
+                    scope = {0: 1, -1: 1}
+                    ext_aad = cb.external_aad(bundle, sec, tgt, scope, b'', bpv7.eid_to_item(sh.SRC_NODE))
+                    result = cb.make_sign1_result(-7, key, [cert.public_bytes(serialization.Encoding.DER)], ext_aad, tgt['data'])
+                    sec['data'] = cb.encode_asb(dict(targets=[1], context_id=3, flags=1, source=sh.SRC_NODE, params=[(5, scope)], results=[[result]]))
+                    data = bpv7.encode(bundle)
+                    verdict, why = cb.verify_bundle(data, sh.oracle_keys('all'))
+                    assert (verdict == 'ok') == (vname == 'good'), (vname, verdict, why)
+                    obs['certificate_variant_runs'] += 1
+                    note(judge(data, 'sign1', obs, 'Sign1 BIB under certificate variant "%s"' % vname), data, vname)
         elif kind == 'keys':
             for cose in ('mac0-256', 'sign1'):
                 bundle = base_bundle(rng, 40, next_=1, crc=2, seq=7)
